@@ -26,6 +26,11 @@ func init() {
 			{"C14.R7", "q", "shared: a split's recorded data size covers only accepted records", c14r7},
 			{"C09.R3", "q", "shared: size + CRC gates on every read", c09r3},
 			{"C02.R4", "q", "shared: hints trusted only for the covered prefix", c02r4},
+			{"C02.R8", "q", "shared: rebuild from data carries every field of the record", c02r8},
+			{"C14.R13", "q", "shared: start-up acceptance of hint files", c14r13},
+			{"C06.R8", "q", "a fatal log line stops the process", c06r8},
+			{"C14.R3", "q", "shared: seek/offset pairing of the stream reader used by the rebuild", c14r3},
+			{"C09.R9", "q", "shared: resynchronisation probes every block up to the file end", c09r9},
 		},
 	})
 }
